@@ -66,14 +66,17 @@ def eval_bob(f, frames, accept, proc, send_ok, raw=False):
             return None
         if kind == "await":
             t, args, it = payload
-            if name.startswith("next(framed-reader"):
+            if name.startswith("next(framed-reader") or name.startswith("try_next(framed-reader"):
+                # StreamExt::next yields Option<Result<frame>>, TryStreamExt::try_next the transposed Result<Option<frame>>
+                tr = name.startswith("try_")
                 i = st["fi"]
                 st["fi"] += 1
                 if i >= len(frames):
-                    return E.NONE
+                    return E.Ok(E.NONE) if tr else E.NONE
                 if frames[i] == "ioerr":
-                    return E.Some(E.Err(E.Tok("io-error")))
-                return E.Some(E.Ok(_mk_frame(E, f, frames[i], i)))
+                    return E.Err(E.Tok("io-error")) if tr else E.Some(E.Err(E.Tok("io-error")))
+                fr = _mk_frame(E, f, frames[i], i)
+                return E.Ok(E.Some(fr)) if tr else E.Some(E.Ok(fr))
             if name.startswith("call(") or name.startswith("call_mut(") or name.startswith("call_once("):
                 nsset = E.describe(E.field(f, it.heap["self"], BS, "namespace"), f)
                 st["log"].append(("accept_cb", name[name.index(",(") + 2:-2] if ",(" in name else name, "namespace-field=" + nsset))
@@ -168,14 +171,17 @@ def eval_alice(f, frames, init_ok, proc, send_ok):
         if kind == "await":
             if name == "initial-future":
                 return E.Ok(E.Tok("init-msg")) if init_ok else E.Err(E.Tok("closed"))
-            if name.startswith("next(framed-reader"):
+            if name.startswith("next(framed-reader") or name.startswith("try_next(framed-reader"):
+                # StreamExt::next yields Option<Result<frame>>, TryStreamExt::try_next the transposed Result<Option<frame>>
+                tr = name.startswith("try_")
                 i = st["fi"]
                 st["fi"] += 1
                 if i >= len(frames):
-                    return E.NONE
+                    return E.Ok(E.NONE) if tr else E.NONE
                 if frames[i] == "ioerr":
-                    return E.Some(E.Err(E.Tok("io-error")))
-                return E.Some(E.Ok(_mk_frame(E, f, frames[i], i)))
+                    return E.Err(E.Tok("io-error")) if tr else E.Some(E.Err(E.Tok("io-error")))
+                fr = _mk_frame(E, f, frames[i], i)
+                return E.Ok(E.Some(fr)) if tr else E.Some(E.Ok(fr))
             if name == "process-future":
                 k = st["pi"]
                 st["pi"] += 1
